@@ -199,18 +199,20 @@ RoundTripOK == /\ got = SubSeq(fields, 1, Len(got))
                /\ (phase = "read" => Len(sofar) = (IF got = <<>> THEN 0 ELSE ends[Len(got)]))
                /\ (phase = "read" /\ Len(got) = Len(fields) => rest = <<>>)
 \* the wire is the concatenation of the field encodings (the steps add up to the whole-message definition)
-WireOK == /\ Len(ends) = Len(fields)
+\* (fields, wire and ends only change while writing, so the three invariants about them are evaluated in that phase)
+WireOK == phase = "write" =>
+          /\ Len(ends) = Len(fields)
           /\ \A k \in 1..Len(fields) : fields[k].t # "mpint" => WriteClauses(fields[k], Seg(k)) = {}
           /\ wire = Flatten([k \in 1..Len(fields) |-> Seg(k)])
 \* every mpint on the wire is RFC 4251's minimal two's complement form and denotes the integer written
-MpintCanonical == \A k \in 1..Len(fields) : fields[k].t = "mpint" =>
+MpintCanonical == phase = "write" => \A k \in 1..Len(fields) : fields[k].t = "mpint" =>
                      LET b == Drop(Seg(k), 4) IN
                        /\ WriteClauses(fields[k], Seg(k)) = {}
                        /\ Take(Seg(k), 4) = BE4(Len(b))
                        /\ Minimal(b)
                        /\ MpintValue(b) = <<fields[k].neg, fields[k].v>>
 \* the spec's decoder inverts the spec's encoder on every value (so either can serve as the oracle)
-CodecInverse == \A k \in 1..Len(fields) : LET r == Read(fields[k].t, Enc(fields[k])) IN r.val = fields[k] /\ r.n = Len(Enc(fields[k]))
+CodecInverse == phase = "write" => \A k \in 1..Len(fields) : LET r == Read(fields[k].t, Enc(fields[k])) IN r.val = fields[k] /\ r.n = Len(Enc(fields[k]))
 \* step-wise form of the same clauses (what the trace spec evaluates on recorded steps)
 AddLegal == [][(phase' = "write" /\ fields' # fields) =>
                   WriteClauses(fields'[Len(fields')], SubSeq(wire', Len(wire) + 1, Len(wire'))) = {}]_vars
